@@ -247,6 +247,63 @@ def int_range_cases():
     return n, col.list()
 
 
+def slice_pair_cases():
+    """every integer of a slice is range-checked, also when the slice has unit length or an explicit step"""
+    col = Collector()
+    n = 0
+    big = 2 ** 53
+
+    class Small(jp.JSONPathEnvironment):
+        max_int_index = 10
+        min_int_index = -10
+
+    for env, lo, hi in ((jp.JSONPathEnvironment(), -big + 1, big - 1), (Small(), -10, 10)):
+        for x in (lo - 1, lo, lo + 1, 0, hi - 1, hi):
+            for q, ints in ((f"$[{x}:{x + 1}]", (x, x + 1)), (f"$[{x}:{x + 1}:1]", (x, x + 1, 1)), (f"$[{x - 1}:{x}]", (x - 1, x)),
+                            (f"$[?@[{x}:{x + 1}]]", (x, x + 1)), (f"$[{x}:{x + 1}:{x}]", (x, x + 1, x))):
+                n += 1
+                want = all(lo <= v <= hi for v in ints)
+                try:
+                    env.compile(q)
+                    got = True
+                except jp.JSONPathError:
+                    got = False
+                except Exception as ex:  # noqa: BLE001
+                    col.add("c05-compile-raises-" + type(ex).__name__, str(ex), {"query": q})
+                    continue
+                if got != want:
+                    col.add("c05-slice-integer-range-wrong", "slice integer range", {"query": q, "range": [lo, hi]}, want, got)
+    return n, col.list()
+
+
+def nonsingular_comparand_cases():
+    """only singular queries are compared: a query with a slice, a wildcard, a descendant segment, several selectors or a filter is
+    refused as a comparison operand and as a ValueType argument, whatever its slice bounds are"""
+    col = Collector()
+    n = 0
+    env = c10.env_factory()
+    nonsing = ["@.*", "@..a", "@[0:1]", "@[1:2:1]", "$.k[3:4]", "$.k[0:1:1]", "@[0,1]", "@['a','b']", "@[:]", "@[?@.x]", "@.a[0:1]", "@[0:1].a"]
+    sing = ["@.a", "@[0]", "$.k[1]", "@['a'][0]", "@"]
+    shapes = ["$[?{q} == 1]", "$[?1 == {q}]", "$[?{q} < @.b]", "$[?length({q}) == 1]", "$[?!({q} == 1)]", "$[?@.c && {q} != 'x']", "$[?pv_v({q}) == 1]"]
+    for q in nonsing + sing:
+        for sh in shapes:
+            n += 1
+            query = sh.format(q=q)
+            want = q in sing
+            try:
+                env.compile(query)
+                got = True
+            except jp.JSONPathError:
+                got = False
+            except Exception as ex:  # noqa: BLE001
+                col.add("c05-compile-raises-" + type(ex).__name__, str(ex), {"query": query})
+                continue
+            if got != want:
+                col.add("c05-non-singular-query-compared" if got else "c05-singular-comparison-refused",
+                        "only singular queries are compared", {"query": query}, want, got)
+    return n, col.list()
+
+
 def second_registry_cases():
     """the same function NAMES registered with other result types on a second environment, after the first was used:
     typing must follow the registry of the environment that compiles (any set of registered functions)"""
@@ -300,11 +357,18 @@ def run(tier, seed):
     n3, v3 = second_registry_cases()
     col.merge(v3)
     n2 += n3
+    n4, v4 = slice_pair_cases()
+    col.merge(v4)
+    n5, v5 = nonsingular_comparand_cases()
+    col.merge(v5)
+    n2 += n4 + n5
     return {"evaluations": sum(p["n"] for p in parts) + n2, "distinct_nontrivial": sum(p["nontrivial"] for p in parts),
             "rule": f"function calls of {len(REG)} registered signatures (built-ins + every signature with <= 2 parameters x 3 result types, plus an unknown "
                     "name and wrong arities) with every argument kind (literals, singular / non-singular queries, calls of each result type, comparison, &&, !, "
                     "parentheses), placed as test, comparison operand, under !, beside && / ||, in parentheses, nested; plus index/slice integers around "
-                    "the bounds of the default and of a re-configured environment. compile() must succeed iff the typing rules of the property hold. "
+                    "the bounds of the default and of a re-configured environment (also in unit-length and stepped slices); non-singular queries (slices of every shape, "
+                    "wildcards, descendants, lists, filters) against singular ones as comparison operands and ValueType arguments. compile() must succeed iff the "
+                    "typing rules of the property hold. "
                     "Distinct = distinct query texts.",
             "samples": [f"$[?{text(e)}]" for e in es[:: max(1, len(es) // 8)]][:8], "bounds": {"expressions": len(es), "registry": len(REG)},
             "exhaustive": tier == "thorough", "unjudged": 0, "violations": col.list()}
